@@ -119,7 +119,7 @@ func (g *G) value(k Kind, role, def string) string {
 // ---- value alphabets (choice 0 is the role's own default) ------------------------------------------
 
 // (the last three: the longest keyword, one of the shortest, and the longest in upper case)
-var hardIdents = []string{"b", "_x1", "my db", `sel"ect`, "select", "1h", "a.b", "é👍", "new\nline", "Time", `back\slash`, "true", "OR", "time", "subscriptions", "on", "SUBSCRIPTIONS"}
+var hardIdents = []string{"b", "_x1", "my db", `sel"ect`, "select", "1h", "a.b", "é👍", "new\nline", "Time", `back\slash`, "true", "OR", "time", "subscriptions", "on", "SUBSCRIPTIONS", "tab\there", "nb\u00a0sp", "\ufeffbom", "del\x7f", "it's", "zw\u200bsp"}
 var hardStrings = []string{"", "it's", `a\b`, "x\ny", "é", "; DROP DATABASE d --", `"`, "/* c */"}
 
 func (g *G) ident(role, def string) string {
